@@ -778,7 +778,7 @@ Qed.
                            Max(RSI) - Min(RSI)
    Min / Max: moving minimum / maximum of the RSI series over the period of the configured MovingMin / MovingMax (one
    period q for both, as NewStochasticRsiWithPeriod builds them).  MovingMin / MovingMax are the window minimum / maximum
-   when the first q values they see are non-zero (C01_MovingMin_zero_refuted): here the first q RSI values. *)
+   when the first q values they see are non-zero (the former zero-fill defect, fixed): here the first q RSI values. *)
 
 Definition StochasticRsi_doc (p : Z) (q : nat) (cs : list R) (i : nat) : R :=
   (Rsi_doc p cs i - fmin q (Rsi_doc p cs) i) / (fmax q (Rsi_doc p cs) i - fmin q (Rsi_doc p cs) i).
